@@ -203,12 +203,16 @@ def main():
             if lab.split(".")[0] == pid and not any(o.startswith(lab + " @") for o in clause_obls):
                 clause_obls.append("%s @ %s(raw)" % (lab, u))
     safety_obls = ["safety+termination @ %s" % f["fn"] for f in fn_list]
-    failed_ids = {f["obligation_id"] for f in all_fail}
-    failed_fns_internal = {f["fn"] for f in all_fail if f["how"] == "internal"}
+    # obligations listed as known findings are reported separately: they are neither counted as obligations of the proof nor as discharged
+    known_ids = {f["obligation_id"] for _, f in known_hits}
+    all_fail_counted = [f for f in all_fail if f["obligation_id"] not in known_ids]
+    clause_obls = [o for o in clause_obls if o not in known_ids]
+    failed_ids = {f["obligation_id"] for f in all_fail_counted}
+    failed_fns_internal = {f["fn"] for f in all_fail_counted if f["how"] == "internal"}
     obligations = len(clause_obls) + len(safety_obls)
     failed_n = len([o for o in clause_obls if o in failed_ids]) + len([f for f in fn_list if f["fn"] in failed_fns_internal])
     # violations that are labelled shim preconditions at call sites are extra obligations
-    site_obl = [f for f in all_fail if f["obligation_id"] not in clause_obls and f["how"] == "labelled"]
+    site_obl = [f for f in all_fail_counted if f["obligation_id"] not in clause_obls and f["how"] == "labelled"]
     obligations += len(site_obl)
     failed_n += len(site_obl)
     discharged = obligations - failed_n
@@ -249,7 +253,8 @@ def main():
         "rewrite_rules_applied": sorted({"%s: %s" % (a, b) for u in units for fn in results[u].get("functions", []) for a, b in fn["rules"] if a != "G"})[:200],
         "status": status,
         "undecided": undecided,
-        "known_findings_hit": [k["what_fails"] for k, _ in known_hits],
+        "known_findings_hit": [{"obligation": k["obligation_id"], "what_fails": k["what_fails"], "how_to_reproduce": k.get("how_to_reproduce")} for k, _ in known_hits],
+        "known_findings_note": "obligations listed as known findings are NOT discharged and are excluded from obligations/discharged above" if known_hits else "",
         "samples": [o for o in clause_obls[:8]] or ["(none)"],
         "failed": [{"obligation": f["obligation_id"], "msg": f["msg"], "repo": "%s:%s" % (f.get("src"), f.get("sline")),
                     "site": f.get("site_text")} for f in all_fail],
@@ -280,8 +285,11 @@ def main():
         with open(os.path.join(EVID, "%s.json" % pid), "w") as f:
             json.dump(ev, f, indent=1)
 
+    seen_k = set()
     for k, f in known_hits:
-        print("KNOWN-FINDING: property=%s %s" % (pid, k["what_fails"]))
+        if k["obligation_id"] not in seen_k:
+            seen_k.add(k["obligation_id"])
+            print("KNOWN-FINDING: property=%s %s" % (pid, k["what_fails"]))
     if violations or extra_viol:
         for path, found, v in replay_paths:
             print("violated obligation: %s  [%s]  %s" % (v.get("obligation_id"), v.get("msg"), ("repo %s:%s" % (v.get("src"), v.get("sline"))) if v.get("src") else ""))
